@@ -703,6 +703,7 @@ func TestC19(t *testing.T) {
 	})
 	R.Part("cases", "connect-to:sequences", nc)
 	c19ConnectToEndToEnd(R, t.TempDir())
+	c19ConnectToTwoSources(R, t.TempDir())
 
 	// ---- -dns-ttl ---------------------------------------------------------------------------------
 	for _, x := range []struct {
@@ -739,6 +740,7 @@ func TestC19(t *testing.T) {
 	}
 	R.Part("cases", "dns-ttl", 10)
 	c19DNSTTLForever(R, t.TempDir())
+	c19ResolversWithAndWithoutCache(R, t.TempDir())
 
 	// ---- -resolvers --------------------------------------------------------------------------------
 	type rtext struct {
@@ -933,6 +935,107 @@ func c19ConnectToEndToEnd(R *ev.Run, dir string) {
 		}
 	}
 	R.Part("cases", "connect-to:end-to-end", cases)
+}
+
+// c19ConnectToTwoSources: two mapped sources with two replacements each, hit alternately without keep-alive:
+// every source rotates over ITS replacements (the manual: "identical src:port with different dst:port will
+// round-robin over the different dst:port pairs").
+func c19ConnectToTwoSources(R *ev.Run, dir string) {
+	var cnt [4]int64
+	var dsts [4]string
+	for i := range dsts {
+		i := i
+		srv := httptest.NewServer(http.HandlerFunc(func(w http.ResponseWriter, r *http.Request) {
+			atomic.AddInt64(&cnt[i], 1)
+			w.Write([]byte("ok"))
+		}))
+		defer srv.Close()
+		dsts[i] = strings.TrimPrefix(srv.URL, "http://")
+	}
+	const per = 8 // hits per source
+	tf, of := filepath.Join(dir, "ct2-targets"), filepath.Join(dir, "ct2-out")
+	var tg strings.Builder
+	for k := 0; k < per; k++ {
+		fmt.Fprintf(&tg, "GET http://c19alpha.invalid:80/%d\nGET http://c19beta.invalid:80/%d\n", k, k)
+	}
+	os.WriteFile(tf, []byte(tg.String()), 0o644)
+	args := []string{"-lazy", "-rate", "0", "-workers", "1", "-max-workers", "1", "-timeout", "10s", "-keepalive=false", "-targets", tf, "-output", of,
+		"-connect-to", "c19alpha.invalid:80:" + dsts[0], "-connect-to", "c19alpha.invalid:80:" + dsts[1],
+		"-connect-to", "c19beta.invalid:80:" + dsts[2], "-connect-to", "c19beta.invalid:80:" + dsts[3]}
+	err := attackCmd().fn(args)
+	R.Eval(1)
+	R.Trans(2 * per)
+	R.State(1)
+	R.Distinct("connect-to-e2e-two-sources")
+	R.Part("cases", "connect-to:end-to-end:two-sources", 1)
+	got := []int64{atomic.LoadInt64(&cnt[0]), atomic.LoadInt64(&cnt[1]), atomic.LoadInt64(&cnt[2]), atomic.LoadInt64(&cnt[3])}
+	ctx := map[string]any{"args": strings.Join(args[len(args)-8:], " "), "hits_per_source": per, "connections_at_alpha's_replacements": got[:2], "connections_at_beta's_replacements": got[2:]}
+	switch {
+	case err != nil:
+		ctx["error"] = err.Error()
+		R.Violation("connect-to:end-to-end:attack-fails:two-sources", ctx)
+	case got[0]+got[1] != per || got[2]+got[3] != per:
+		R.Violation("connect-to:end-to-end:mapping-not-used:two-sources", ctx)
+	case got[0]-got[1] > 1 || got[1]-got[0] > 1 || got[2]-got[3] > 1 || got[3]-got[2] > 1:
+		R.Violation("connect-to:end-to-end:a-source-does-not-rotate-over-its-replacements", ctx)
+	}
+}
+
+// c19ResolversWithAndWithoutCache: -resolvers names the servers that are asked, whatever -dns-ttl says. A local
+// UDP responder counts the queries it gets (and answers "no such name"); with caching (-dns-ttl 0, 1s) and
+// without (-dns-ttl -1) the attack's lookups must arrive there.
+func c19ResolversWithAndWithoutCache(R *ev.Run, dir string) {
+	pc, err := net.ListenPacket("udp", "127.0.0.1:0")
+	if err != nil {
+		R.Assume("-resolvers end to end skipped: no loopback UDP listener: " + err.Error())
+		return
+	}
+	defer pc.Close()
+	var queries int64
+	go func() {
+		buf := make([]byte, 1500)
+		for {
+			n, addr, err := pc.ReadFrom(buf)
+			if err != nil {
+				return
+			}
+			if n < 12 {
+				continue
+			}
+			atomic.AddInt64(&queries, 1)
+			resp := append([]byte(nil), buf[:n]...)
+			resp[2] |= 0x80               // a response
+			resp[3] = resp[3]&0xf0 | 0x03 // NXDOMAIN
+			pc.WriteTo(resp, addr)
+		}
+	}()
+	saved := net.DefaultResolver
+	defer func() { net.DefaultResolver = saved }()
+	tf, of := filepath.Join(dir, "res-targets"), filepath.Join(dir, "res-out")
+	os.WriteFile(tf, []byte("GET http://c19res.invalid:8080/\n"), 0o644)
+	seen := map[string]int64{}
+	for _, ttl := range []string{"0", "1s", "-1"} {
+		atomic.StoreInt64(&queries, 0)
+		args := []string{"-targets", tf, "-output", of, "-rate", "20/s", "-duration", "100ms", "-keepalive=false", "-timeout", "3s", "-dns-ttl", ttl, "-resolvers", pc.LocalAddr().String()}
+		err := attackCmd().fn(args)
+		net.DefaultResolver = saved
+		R.Eval(1)
+		R.Trans(2)
+		R.Distinct("resolvers-e2e\x00" + ttl)
+		if err != nil {
+			R.Violation("resolvers:end-to-end:attack-fails", map[string]any{"dns-ttl": ttl, "error": err.Error()})
+			return
+		}
+		seen[ttl] = atomic.LoadInt64(&queries)
+	}
+	R.Part("cases", "resolvers:end-to-end", 3)
+	ctx := map[string]any{"queries_at_the_-resolvers_server_by_dns-ttl": seen}
+	switch {
+	case seen["0"] == 0 && seen["1s"] == 0 && seen["-1"] == 0:
+		R.Assume(fmt.Sprintf("-resolvers end to end not judged: the local responder saw no query at all (%v)", seen))
+	case seen["0"] == 0 || seen["1s"] == 0 || seen["-1"] == 0:
+		R.Violation("resolvers:end-to-end:lookups-bypass-the-configured-servers", ctx)
+	}
 }
 
 // c19DNSTTLForever: "-dns-ttl 0 = cache forever" end to end. The system resolver is replaced by one that counts
